@@ -480,7 +480,8 @@ def fmt_spec(rng, kinds):
     width = rng.choice(['-', '-', '0', '1', '5', '12', '40', str(rng.randint(0, 140))])
     prec = rng.choice(['-', '-', '-', '0', '1', '2', '3', '5', '10', '17', '40', str(rng.randint(0, 200))])
     if rng.random() < 0.02:      # beyond every plausible internal cap (buffer sizes 128/130, u8 counters): heavy tail, kept rare because the verdict is slow there
-        width = str(rng.choice([141, 200, 255, 256, 257, 300, 1000]))
+        # width 1000 costs the (cubic) padding verdict ~9 s per request: 65 CPU-minutes of a quick C09 run were spent on 0.3 % of its requests; 400 costs 0.6 s
+        width = str(rng.choice([141, 200, 255, 256, 257, 300, 400]) if rng.random() < 0.97 else 1000)
     if rng.random() < 0.02:
         prec = str(rng.choice([126, 127, 128, 129, 130, 131, 201, 255, 256, 257, 300, 1000]))
     return [kind, fa, plus, alt, zero, width, prec]
